@@ -9,6 +9,7 @@ Oracles (none of them depends on timing: any instant is a legal stop):
   * after a second run drained the channel: every published body is in the files (at least once);
   * no file in the output dir was lost between the first and the second run.
 """
+import collections
 import gzip
 import io
 import json
@@ -64,6 +65,30 @@ def tree(root, gz):
     return res
 
 
+def whole_lines(files):
+    """multiset of the newline-terminated lines of all files, counted per file: an unterminated tail of a file is
+    not a line and is not completed by the next file (audit C30: the old `b"\\n".join(files)` did both)"""
+    c = collections.Counter()
+    for v in files.values():
+        for ln in v.split(b"\n")[:-1]:
+            c[ln] += 1
+    return c
+
+
+def glued_to_torn_tail(body, before, after):
+    """`body` owns no line of `after`; is it glued to the unterminated tail a killed first run left in a file that
+    the second run re-opened with O_APPEND (finding torn-tail-append)? Returns the file name or None."""
+    for name, old in before.items():
+        new = after.get(name)
+        if new is None or not old or old.endswith(b"\n") or not new.startswith(old):
+            continue
+        start = old.rfind(b"\n") + 1            # the line that straddles the end of the first run's bytes
+        end = new.find(b"\n", len(old))
+        if end >= 0 and new[start:end].endswith(body) and new[len(old):end] == body:
+            return name
+    return None
+
+
 def owed(http_port):
     st = json.loads(http("http://127.0.0.1:%d/stats?format=json&topic=t" % http_port))
     for t in st.get("topics", []):
@@ -112,6 +137,8 @@ def parse_trace(path, dirs, gz):
     inbuf = b""
     body_ids = {}     # body -> [message numbers]
     idnum = {}        # nsq message id -> number
+    num_body = {}     # number -> body
+    fin_bodies = collections.Counter()   # body -> number of FIN commands written for it
     nfin = 0
     for raw in open(path, errors="replace"):
         m = re.match(r"^(\d+)\s+(.*)$", raw.rstrip("\n"))
@@ -150,7 +177,10 @@ def parse_trace(path, dirs, gz):
                 elif fd == sock:
                     for mf in re.finditer(rb"FIN ([0-9a-f]{16})\n", data):
                         nfin += 1
-                        ev.append("f:%d" % idnum.setdefault(mf.group(1), len(idnum) + 1))
+                        k = idnum.setdefault(mf.group(1), len(idnum) + 1)
+                        ev.append("f:%d" % k)
+                        if k in num_body:
+                            fin_bodies[num_body[k]] += 1
             elif fd == sock:
                 inbuf += data
                 while len(inbuf) >= 8:
@@ -163,13 +193,14 @@ def parse_trace(path, dirs, gz):
                     if ftype == 2 and len(frame) >= 26:
                         k = idnum.setdefault(frame[10:26], len(idnum) + 1)
                         body_ids.setdefault(frame[26:], []).append(k)
+                        num_body[k] = frame[26:]
                         if gz:
                             ev.append("m:0:%d" % k)
             continue
         mo = re.match(r"(fsync|fdatasync)\((\d+)\s*\)\s+= 0", l)
         if mo and int(mo.group(2)) in fds:
             ev.append("s:%d" % (0 if gz else fds[int(mo.group(2))]))
-    return ev, nfin
+    return ev, nfin, fin_bodies
 
 
 def run(ctx, rounds):
@@ -251,9 +282,9 @@ def run(ctx, rounds):
             time.sleep(0.3)
             still, _ = owed(hp)
             files = tree(root, gz)
-            blob = b"\n" + b"\n".join(files.values())
-            present = sum(1 for b in bodies if (b + b"\n") in blob)   # bodies carry a unique tag
-            tr, nfin = parse_trace(strace_log, [os.path.join(root, "o"), os.path.join(root, "w")], gz)
+            lines = whole_lines(files)
+            present = sum(1 for b in bodies if lines[b] > 0)   # bodies carry a unique tag and no newline
+            tr, nfin, fin_bodies = parse_trace(strace_log, [os.path.join(root, "o"), os.path.join(root, "w")], gz)
             rc, ans = ctx.driver("e8", stdin="trm " + " ".join(tr) + "\n")
             ctx.evaluations += 1
             rec = {"round": rnd, "stop": stop, "gzip": gz, "workdir": workdir, "published": len(bodies), "owed": still,
@@ -261,6 +292,15 @@ def run(ctx, rounds):
             if ans.strip() != "ok":
                 ctx.violation("tofile-e2e-syscall", "real nsq_to_file wrote a FIN to nsqd while a written output file was not yet "
                               "fsynced (%s)" % json.dumps(rec), json.dumps({"opts": opts, "stop": stop}) + "\n" + " ".join(tr) + "\n")
+            # every FIN command the tool wrote is backed by a whole line of its own (multiset: a body finished
+            # twice — redelivered after a timeout — needs two lines)
+            unbacked = [b for b, k in fin_bodies.items() if lines[b] < k]
+            rec["fin_bodies"] = sum(fin_bodies.values())
+            rec["fin_unbacked"] = len(unbacked)
+            if unbacked:
+                ctx.violation("tofile-e2e-fin-without-line", "real nsq_to_file sent FIN for %d message(s) that own no whole line of any "
+                              "(decodable) file after the stop, e.g. %r (%s)" % (len(unbacked), unbacked[0][:60], json.dumps(rec)),
+                              json.dumps({"opts": opts, "stop": stop, "rec": rec}) + "\n")
             if present < len(bodies) - still:
                 ctx.violation("tofile-e2e-lost", "after %s the channel no longer owes %d of %d messages but only %d are in the files (%s)"
                               % (stop, len(bodies) - still, len(bodies), present, json.dumps(rec)),
@@ -279,8 +319,18 @@ def run(ctx, rounds):
             except subprocess.TimeoutExpired:
                 tool.kill()
             files2 = tree(root, gz)
-            blob2 = b"\n" + b"\n".join(files2.values())
-            missing = [b for b in bodies if (b + b"\n") not in blob2]
+            lines2 = whole_lines(files2)
+            missing = [b for b in bodies if lines2[b] == 0]
+            # finding torn-tail-append (own leg: harness/e8/tofile_lines_test.go): the killed first run left "bodyA" without
+            # its newline, the second run appended "bodyB\n" to the same file; B is acknowledged but owns no line
+            torn = [(b, glued_to_torn_tail(b, files, files2)) for b in missing]
+            rec["torn_tail_append"] = sum(1 for _, f in torn if f)
+            for b, f in torn:
+                if f:
+                    ctx.violation("torn-tail-append", "after SIGKILL the file %s ended in a record without its newline; the next run "
+                                  "appended %r right behind it and acknowledged it (the message owns no line)" % (f, b[:60]),
+                                  json.dumps({"opts": opts, "rec": rec}) + "\n")
+            missing = [b for b, f in torn if not f]
             rec["drained_missing"] = len(missing)
             rec["owed_after_drain"] = still2
             if still2 == 0 and missing:
